@@ -34,7 +34,7 @@ Section Deep.
                         | JArr _ => [(fst kv, @DepNames elem (jstr_list (snd kv)))]
                         | _ => [] end) dd.
 
-  Definition deps_rel (deps : option (list (str * dep_t elem))) : Prop :=
+  Definition deps_parsed (deps : option (list (str * dep_t elem))) : Prop :=
     match lookup (s_ "dependencies") kvs with
     | None => deps = None
     | Some (JObj dd) =>
@@ -42,6 +42,20 @@ Section Deep.
       exists es, deps = Some (dict_merge (dict_of_pairs (dep_names dd))
                                          (map (fun ke => (fst ke, DepElem (snd ke))) es))
                  /\ sim_assoc es (filter (fun kv => is_schema (snd kv)) dd)
+    | Some _ => False
+    end.
+
+  (* what the dependencies validator needs of the stored dependencies (any order) *)
+  Definition deps_rel (deps : option (list (str * dep_t elem))) : Prop :=
+    match lookup (s_ "dependencies") kvs with
+    | None => deps = None
+    | Some (JObj dd) =>
+      NoDup (keys dd) /\
+      exists ds, deps = Some ds /\
+        (forall key d, In (key, d) ds ->
+           (exists l, In (key, JArr l) dd /\ d = DepNames (jstr_list (JArr l))) \/
+           (exists e S0, d = DepElem e /\ In (key, S0) dd /\ is_schema S0 = true /\ sim e S0)) /\
+        (forall key S0, In (key, S0) dd -> (exists l, S0 = JArr l) \/ is_schema S0 = true -> In key (keys ds))
     | Some _ => False
     end.
 
@@ -152,33 +166,21 @@ Section Deep.
   Lemma In_keys {A} k (v : A) l : In (k, v) l -> In k (keys l).
   Proof. intros H. unfold keys. apply in_map_iff. exists (k, v). auto. Qed.
 
-  Lemma deps_vm deps v m : deps_rel deps -> jwf v ->
-    vm (match deps with Some ds => deps_loop B v m ds | None => VPass end)
-       (match lookup (s_ "dependencies") kvs with
-        | Some (JObj dd) => forallb (fun kd => dep_entry_b dd v m (fst kd)) dd
-        | _ => true end).
+  Lemma deps_parsed_rel deps : deps_parsed deps -> deps_rel deps.
   Proof.
-    intros Hd Hv. red in Hd.
-    destruct (lookup (s_ "dependencies") kvs) as [Sd|]; [|subst deps; reflexivity].
+    unfold deps_parsed, deps_rel.
+    destruct (lookup (s_ "dependencies") kvs) as [Sd|]; [|auto].
     destruct Sd as [| | | | | |dd]; try contradiction.
-    destruct Hd as (Hnd & es & -> & Hes).
+    intros (Hnd & es & -> & Hes). split; [exact Hnd|].
     set (els := map (fun ke : str * elem => (fst ke, DepElem (snd ke))) es).
     set (ds := dict_merge (dict_of_pairs (dep_names dd)) els).
-    set (g := fun key => match lookup key dd with
-                         | Some (JArr names) => forallb (fun n => match n with JStr s0 => has_key s0 m | _ => true end) names
-                         | Some d => F d v
-                         | None => true end).
-    assert (Ha : forall key d, In (key, d) ds ->
-              (exists l, In (key, JArr l) dd /\ d = DepNames (jstr_list (JArr l))) \/
-              (exists e S0, d = DepElem e /\ In (key, S0) dd /\ is_schema S0 = true /\ sim e S0)).
-    { intros key d H. unfold ds in H. apply In_dict_merge' in H as [H|H].
-      - left. unfold dict_of_pairs in H. apply In_dict_merge' in H as [[]|H]. now apply keys_dep_names.
-      - right. unfold els in H. apply in_map_iff in H as ([k' e] & E & Hin). inversion E; subst. clear E.
+    exists ds. split; [reflexivity|]. split.
+    - intros key d H. unfold ds in H. apply In_dict_merge' in H as [H|H].
+      + left. unfold dict_of_pairs in H. apply In_dict_merge' in H as [[]|H]. now apply keys_dep_names.
+      + right. unfold els in H. apply in_map_iff in H as ([k' e] & E & Hin). inversion E; subst. clear E.
         destruct (Forall2_In_l _ _ _ _ Hes Hin) as ([k2 S0] & Hy & Ek & Hs). cbn [fst snd] in *. subst k2.
-        apply filter_In in Hy as [Hy1 Hy2]. exists e, S0. auto. }
-    assert (Hb : forall key S0, In (key, S0) dd -> (exists l, S0 = JArr l) \/ is_schema S0 = true ->
-              In key (keys ds)).
-    { intros key S0 Hin Hc.
+        apply filter_In in Hy as [Hy1 Hy2]. exists e, S0. auto.
+    - intros key S0 Hin Hc.
       assert (Hk : In key (keys (dict_of_pairs (dep_names dd))) \/ In key (keys els)).
       { destruct Hc as [(l & ->)|Hc].
         - left. assert (Hdn : In (key, @DepNames elem (jstr_list (JArr l))) (dep_names dd)).
@@ -189,7 +191,23 @@ Section Deep.
           destruct (Forall2_In_r _ _ _ _ Hes Hf) as ([k' e] & Hx & Ek & _). cbn [fst] in Ek. subst k'.
           unfold els, keys. rewrite map_map. apply in_map_iff. exists (key, e). auto. }
       destruct (lookup_dict_merge_some key els _ Hk) as (v0 & Hv0).
-      apply lookup_In in Hv0. eapply In_keys; eauto. }
+      apply lookup_In in Hv0. eapply In_keys; eauto.
+  Qed.
+
+  Lemma deps_vm deps v m : deps_rel deps -> jwf v ->
+    vm (match deps with Some ds => deps_loop B v m ds | None => VPass end)
+       (match lookup (s_ "dependencies") kvs with
+        | Some (JObj dd) => forallb (fun kd => dep_entry_b dd v m (fst kd)) dd
+        | _ => true end).
+  Proof.
+    intros Hd Hv. red in Hd.
+    destruct (lookup (s_ "dependencies") kvs) as [Sd|]; [|subst deps; reflexivity].
+    destruct Sd as [| | | | | |dd]; try contradiction.
+    destruct Hd as (Hnd & ds & -> & Ha & Hb).
+    set (g := fun key => match lookup key dd with
+                         | Some (JArr names) => forallb (fun n => match n with JStr s0 => has_key s0 m | _ => true end) names
+                         | Some d => F d v
+                         | None => true end).
     eapply vm_ext; [apply (deps_loop_vm v m g ds)|].
     - intros key d Hin Hk. destruct (Ha key d Hin) as [(l & Hl & ->)|(e & S0 & -> & Hl & Hs & He)].
       + unfold g. rewrite (In_lookup _ _ _ Hnd Hl). symmetry. apply forallb_jstr_list.
